@@ -133,7 +133,7 @@ class Exec:
             if v != UNDEF: s.mem.store(st, s.mod.resolve(ty), v, ('p', oid, 0))
         else:
             st.mem[oid].zero.append((0, st.mem[oid].size))     # external / common: treat as zero initialised
-        st.mem[oid].pre = True
+        st.mem[oid].pre = st.frozen      # a global first touched after sym_freeze() existed before the call under test
         return ('p', oid, 0)
     def conc(s, st, x, what='value'):
         if x[0] != 'i': raise Unsupported('concretise %r' % (x[:1],))
